@@ -26,7 +26,12 @@ def find_collections(path):
     out = []
     with h5py.File(path, "r") as f:
         def is_coll(g):
-            return isinstance(g, h5py.Group) and "pixels" in g and "indexes" in g and "bins" in g
+            if not isinstance(g, h5py.Group):
+                return False
+            fmt = g.attrs.get("format", None)
+            if isinstance(fmt, bytes):
+                fmt = fmt.decode()
+            return fmt == "HDF5::Cooler" or ("pixels" in g and isinstance(g["pixels"], h5py.Group))
         if is_coll(f):
             out.append("/")
 
@@ -52,11 +57,14 @@ def read_raw(path, group):
             elif isinstance(v, np.ndarray):
                 v = v.tolist()
             raw["attrs"][k] = v
-        raw["pixel_columns"] = sorted(g["pixels"].keys())
-        raw["pixels"] = {k: g["pixels"][k][:] for k in g["pixels"].keys()}
-        raw["bins"] = {k: g["bins"][k][:] for k in ("chrom", "start", "end") if k in g["bins"]}
-        raw["chroms"] = {k: g["chroms"][k][:] for k in ("name", "length") if k in g["chroms"]}
-        raw["indexes"] = {k: g["indexes"][k][:] for k in g["indexes"].keys()}
+        raw["missing"] = [k for k in ("pixels", "bins", "chroms", "indexes") if k not in g or not isinstance(g[k], h5py.Group)]
+
+        def grp(name):
+            return g[name] if name not in raw["missing"] else {}
+        raw["pixels"] = {k: grp("pixels")[k][:] for k in grp("pixels").keys()}
+        raw["bins"] = {k: grp("bins")[k][:] for k in ("chrom", "start", "end") if k in grp("bins")}
+        raw["chroms"] = {k: grp("chroms")[k][:] for k in ("name", "length") if k in grp("chroms")}
+        raw["indexes"] = {k: grp("indexes")[k][:] for k in grp("indexes").keys()}
     return raw
 
 
@@ -86,6 +94,10 @@ def validate_raw(raw):
     errs = []
     A = raw["attrs"]
     px = raw["pixels"]
+    for name in raw.get("missing", []):
+        errs.append(("attr", f"group {name} missing"))
+    if errs:
+        return errs
     for key in ("nnz", "nbins", "nchroms", "bin-type", "bin-size", "storage-mode"):
         if key not in A:
             errs.append(("attr", f"attribute {key} missing"))
